@@ -71,6 +71,11 @@ class ServeManifest(RequestHandlerBase):
     def get(self, mode: str, stream: str, manifest: str) -> flask.Response:
         logging.debug('ServeManifest: mode=%s stream=%s manifest=%s', mode, stream, manifest)
         mft = current_manifest
+        if current_stream.timing_reference is None:
+            # nothing can be scheduled without it (an empty stream, or one
+            # whose reference file has not been chosen yet)
+            return flask.make_response(
+                'stream.timing_reference has not been configured', 404)
         try:
             options = self.calculate_options(
                 mode=mode,
@@ -229,6 +234,9 @@ class ServePatch(RequestHandlerBase):
         logging.debug(
             'ServePatch: stream=%s manifest=%s', stream, manifest)
         mft = current_manifest
+        if current_stream.timing_reference is None:
+            return flask.make_response(
+                'stream.timing_reference has not been configured', 404)
 
         if 'patch' not in mft.features:
             logging.warning(
